@@ -26,6 +26,10 @@ func (P) Gen(r *core.Rand, tier string, emit func([]string)) {
 	if tier == "thorough" {
 		n = 4000
 	}
+	jsonstrDirected(emit)
+	for i, m := 0, n/2; i < m; i++ {
+		emit(jsonstrOps(r, 12))
+	}
 	for i := 0; i < n; i++ {
 		var ops []string
 		var specs []*msggen.Spec
@@ -91,6 +95,7 @@ func (P) Gen(r *core.Rand, tier string, emit func([]string)) {
 				ops = append(ops, "jsoncontent "+r.Pick("1", "1", "1", "0")+" "+core.HexS(r.Pick("image/png", "text/html; charset=utf-8", ""))+" "+core.Hex(text))
 			}
 		}
+		ops = append(ops, jsonstrOps(r, r.Range(1, 3))...)
 		ops = append(ops, "export")
 		emit(ops)
 	}
